@@ -631,51 +631,32 @@ def r10_config_stays(ctx):
     RREG = "mahf::state::registry::StateRegistry::"
     reg_i = F.field_index("mahf::state::State", "registry")
     nf = len(F.adt("mahf::state::State")["variants"][0]["fields"])
-    conf_home, log_home = 10002, 10001
+    import statemodel
     for meth in ("init", "execute"):
         fn = F.method(LOG + "logger::Logger", meth, "mahf::components::Component")
         bad = []
         for level in (0, 1, 2):
+            RULE = LOG + "config::ExtractionRule"
+            ti, xi = F.field_index(RULE, "trigger"), F.field_index(RULE, "extractor")
+            rv = [None, None]
+            rv[ti] = Sym("trigger:0", boxlike=True)
+            rv[xi] = Sym("extractor:0", boxlike=True)
+            conf_val = Agg("adt", CONF, "LogConfig", [Vec("rules")])
+            conf_ty = []
+
+            def auto(ty, level=level):
+                if ty.startswith(CONF + "<") or ty == CONF:
+                    conf_ty.append(ty)
+                    return {level: conf_val}
+                if ty == LOG + "log::Log":
+                    return {2: Agg("adt", LOG + "log::Log", "Log", [Vec("steps")])}
+                if "::holding::" in ty:
+                    return {}
+                return None
+            store = statemodel.Store(F, levels=3, auto=auto)
+
             def oracle(interp, env, f, args, t, bb, path):
                 k = f.get("key", "")
-                nm = f.get("name")
-                ga = (f.get("cgargs") or f.get("gargs") or [None])[0] or ""
-                ms = interp.mstate
-                if k.startswith(RREG) and (ga.startswith(CONF + "<") or "::holding::" in ga):
-                    which = "conf" if ga.startswith(CONF + "<") else "marker"
-                    holders = list(ms.get(which, ()))
-                    recv = load(interp, env, args[0]) if args else None
-                    lvl = int(recv.tag[4:]) if isinstance(recv, Sym) and recv.tag.startswith("reg:") else None
-                    if lvl is None:
-                        return TOP
-                    visible = [h for h in holders if h >= lvl]
-                    if nm in ("find_mut", "find"):
-                        return ok(Sym("reg:%d" % min(visible))) if visible else err(Sym("StateError::NotFound"))
-                    if nm in ("contains", "has"):
-                        return bool(visible)
-                    if nm == "contains_at_top":
-                        return lvl in holders
-                    if nm == "insert":
-                        was = lvl in holders
-                        if not was:
-                            holders.append(lvl)
-                        ms[which] = tuple(sorted(holders))
-                        return some(Sym("displaced")) if was else NONE
-                    if nm in ("remove", "take", "try_remove"):
-                        if not visible:
-                            return err(Sym("StateError::NotFound")) if nm != "take" else "DIVERGE"
-                        holders.remove(min(visible))
-                        ms[which] = tuple(sorted(holders))
-                        v = interp.read_ref(env, Ref(conf_home, [], frame="root")) if which == "conf" else Sym("the-marker")
-                        return v if nm == "take" else ok(v)
-                    if which == "conf" and nm in ("borrow", "borrow_mut", "try_borrow", "try_borrow_mut"):
-                        r = Ref(conf_home, [], frame="root")
-                        if not visible:
-                            return err(Sym("StateError::NotFound")) if nm.startswith("try_") else "DIVERGE"
-                        return ok(r) if nm.startswith("try_") else r
-                    return TOP
-                if k == RREG + "borrow_mut" and ga == LOG + "log::Log":
-                    return Ref(log_home, [], frame="root")
                 if k in (COND + "::evaluate",):
                     return ok(True)
                 if k in (COND + "::init",):
@@ -688,24 +669,24 @@ def r10_config_stays(ctx):
                 if k == "mahf::state::State::iterations":
                     return Sym("iterations-now")
                 return TOP
-            RULE = LOG + "config::ExtractionRule"
-            ti, xi = F.field_index(RULE, "trigger"), F.field_index(RULE, "extractor")
-            rv = [None, None]
-            rv[ti] = Sym("trigger:0", boxlike=True)
-            rv[xi] = Sym("extractor:0", boxlike=True)
             vals = [Sym("phantom")] * nf
             vals[reg_i] = Sym("reg:0")
             home = 11001
-            inl = lambda k: INL(k) or k.startswith("mahf::state::State::holding") or k.startswith("<mahf::state::State as core::ops::deref")
-            it = install(Interp(fn.body, chain(oracle, coll_oracle, std_oracle), [Sym("self"), Sym("problem"), Ref(home, [], frame="root")], facts=F, inline=inl, max_visits=12, max_paths=100))
-            it.extra_env = {home: Agg("adt", "mahf::state::State", "State", vals), log_home: Agg("adt", LOG + "log::Log", "Log", [Vec("steps")]), conf_home: Agg("adt", CONF, "LogConfig", [Vec("rules")])}
-            it.init_state = {"heap": {"steps": (), "rules": (Agg("adt", RULE, "ExtractionRule", rv),)}, "next_vec": 0, "conf": (level,), "marker": ()}
+            inl = lambda k: INL(k) or k.startswith("mahf::state::State::holding") or k.startswith("<mahf::state::State as core::ops::deref") or statemodel.inline(k)
+            it = install(Interp(fn.body, chain(oracle, store, coll_oracle, std_oracle), [Sym("self"), Sym("problem"), Ref(home, [], frame="root")], facts=F, inline=inl, max_visits=12, max_paths=100))
+            it.extra_env = {home: Agg("adt", "mahf::state::State", "State", vals)}
+            it.init_state = {"heap": {"steps": (), "rules": (Agg("adt", RULE, "ExtractionRule", rv),)}, "next_vec": 0}
+            store.install(it)
             where = ["its own scope", "the enclosing scope", "the scope two levels up"][level]
             paths = it.run()
             if len(paths) != 1 or paths[0].end != "return" or not (isinstance(paths[0].ret, Agg) and paths[0].ret.variant == "Ok"):
                 bad.append((where, "is not decided / does not complete (%s)" % [(p.end, str(p.ret)[:40]) for p in paths]))
                 continue
-            ms = paths[0].mstate
-            if tuple(ms.get("conf", ())) != (level,) or ms.get("marker"):
-                bad.append((where, "leaves the LogConfig in scope(s) %s (placeholder left in %s); expected it back in scope %d" % (list(ms.get("conf", ())), list(ms.get("marker", ())), level)))
+            p0 = paths[0]
+            conf_in = sorted(l for (ty, l) in p0.mstate.get("have", ()) if ty in conf_ty)
+            markers = sorted(l for (ty, l) in p0.mstate.get("have", ()) if "::holding::" in ty)
+            if not conf_ty:
+                bad.append((where, "never looks for the LogConfig"))
+            elif conf_in != [level] or markers:
+                bad.append((where, "leaves the LogConfig in scope(s) %s (placeholder left in %s); expected it back in scope %d" % (conf_in, markers, level)))
         ctx.check(not bad, "C15.R10", fn.key, "config-stays-in-its-scope", "LogConfig in %s: Logger::%s %s" % ((bad[0][0], meth, bad[0][1]) if bad else ("", meth, "")), loc=fn.loc())
